@@ -262,6 +262,33 @@ func buildCases(tier string) []caseT {
 			}
 		}
 	}
+	// sort / limit / group terms: every list of up to three elements over keys, signs, blanks and empty elements
+	{
+		sl := add("sort/limit/group lists", true)
+		elems := []string{"", " ", "id", "-id", "+id", "-", "+", "ftime", "-ftime", "cbytes", "x", "--id", "id ", "ID"}
+		for _, a := range elems {
+			sl("sort:" + a)
+			sl("sort:\"" + a + "\"")
+			for _, b := range elems {
+				sl("sort:" + a + "," + b)
+				sl("sort:\"" + a + "," + b + "\"")
+				sl("cport:1 sort:" + a + "," + b + " limit:5")
+				for _, c := range elems[:8] {
+					sl("sort:" + a + "," + b + "," + c)
+				}
+			}
+		}
+		for _, v := range []string{"", "0", "1", "-1", "+1", "1,2", "x", "18446744073709551615", "18446744073709551616", " 5", "5 ", "1.5", "0x10", "\"5\"", "\"\"", "\""} {
+			sl("limit:" + v)
+			sl("id:1 limit:" + v + " sort:id")
+			sl("limit:" + v + " limit:" + v)
+		}
+		for _, v := range []string{"", "@id@", "@x:id@", "@v@", "\"@id@ @cport@\"", "\"\"", "@", "@@", "@id", "id@", "@x:@", "\"@x:id@ @v@ @id@\"", ",", "@id@,@cport@"} {
+			sl("group:" + v)
+			sl("cdata:\"(?P<v>a)\" group:" + v)
+			sl("@x:id:1 group:" + v + " sort:id")
+		}
+	}
 	// long lists, deep nesting
 	ids := make([]string, 1000)
 	for i := range ids {
